@@ -953,6 +953,11 @@ class MutableList(Mutable, List[_T]):
         self.extend(x)
         return self
 
+    def __imul__(self, n: SupportsIndex) -> MutableList[_T]:  # type: ignore[override,misc] # noqa: E501
+        list.__imul__(self, n)
+        self.changed()
+        return self
+
     def insert(self, i: SupportsIndex, x: _T) -> None:
         list.insert(self, i, x)
         self.changed()
